@@ -51,6 +51,11 @@ impl<'a> Src<'a> {
 
     /// true with probability about num/den; byte 0 => false
     pub fn chance(&mut self, num: usize, den: usize) -> bool {
+        if den > 64 {
+            // rare events: 16 bits of resolution
+            let v = ((self.byte() as usize) << 8) | self.byte() as usize;
+            return v * den >= (den - num) * 65536 && num > 0;
+        }
         let b = self.byte() as usize;
         b * den >= (den - num) * 256 && num > 0
     }
